@@ -30,9 +30,19 @@ package main
 //   * a group may call the functions of the groups it depends on (groupDeps): their files are imported, a
 //     qualified callee is resolved through the imports of the caller's file; methods take their receiver as
 //     first parameter (fnSpec.recv);
+//   * a Go map other than map[string]string is an association list `List (κ × ν)`: `m[k]` / `v, ok := m[k]` look the key
+//     up with Go's `==` on the key type (keyEq: strings by value, pointer keys by an explicit identity of the pointee —
+//     `*NodeItem` by the name of its node; the bridges state when that is pointer identity), `for k, v := range m` iterates
+//     the list in the order given (the bridges quantify over every list, i.e. every iteration order);
+//   * a single top-level statement of a function that cannot be translated as a whole can be translated on its own
+//     (fnSpec.fragment, fragmentDecl): a function of the locals the statement mentions, returning the locals it assigns;
+//   * the call `f(a, p, q)` of a function without results that assigns through pointer parameters other than its first
+//     is the assignment of what f returns to those arguments (voidCall);
 //   * `x.Logger.…(…)` calls are dropped, their receiver and arguments still evaluated for their dereferences;
 //   * what the model's values do not carry is a synthetic, universally quantified parameter:
-//     pointer identity (`samePtr`), nil-ness of an empty slice (`nilSlice`), each `time.Now()` (`wallNowN`).
+//     pointer identity (`samePtr`), nil-ness of an empty slice (`nilSlice`), each `time.Now()` (`wallNowN`; a read of the
+//     clock inside a loop is one instant per iteration, `wallNowN : Int → Int` applied to the iteration index; a call of a
+//     translated function that reads the clock reads the caller's clock).
 // Anything outside the subset makes the translator fail loudly (the tie is then reported broken).
 
 import (
@@ -52,9 +62,12 @@ type trErr string
 func dieT(format string, a ...interface{}) { panic(trErr(fmt.Sprintf(format, a...))) }
 
 type Ty struct {
-	K string // bool int str dur time smap ios ptr struct list nil unit
+	K string // bool int str dur time smap ios ptr struct list map nil unit
 	E *Ty
 	N string
+	// K == "map": the key type (E is the value type).  A Go map other than map[string]string is an association
+	// list `List (κ × ν)` looked up with the key equality of its key type (keyEq)
+	Key *Ty
 }
 
 func tBool() Ty { return Ty{K: "bool"} }
@@ -67,6 +80,20 @@ func tPtr(e Ty) Ty {
 }
 func tStruct(n string) Ty { return Ty{K: "struct", N: n} }
 func tList(e Ty) Ty       { return Ty{K: "list", E: &e} }
+func tMap(k, v Ty) Ty     { return Ty{K: "map", Key: &k, E: &v} }
+
+// keyEq: Go's `==` on the key type of a map, as a Lean function (EdsModel/GoPrelude.lean).  Pointer keys are
+// compared by an explicit identity of the pointee: `*NodeItem` by the name of its node.
+func keyEq(k Ty, n ast.Node) string {
+	switch {
+	case k.K == "str":
+		return "Go.strKey"
+	case k.K == "ptr" && k.E.K == "struct" && k.E.N == "NodeItem":
+		return "Go.nodeItemKey"
+	}
+	dieT("gotolean: no key equality for a map keyed by %+v at %s", k, pos(n))
+	return ""
+}
 
 func (t Ty) lean() string {
 	switch t.K {
@@ -86,6 +113,8 @@ func (t Ty) lean() string {
 		return t.N
 	case "list":
 		return "List (" + t.E.lean() + ")"
+	case "map":
+		return "List (" + t.Key.lean() + " × " + t.E.lean() + ")"
 	case "unit":
 		return "Unit"
 	}
@@ -153,7 +182,10 @@ func initTables() {
 	defStruct("ERSStatus", "Status", "status", tStr(), "Desired", "desired", tInt(), "Current", "current", tInt(),
 		"Ready", "ready", tInt(), "Available", "available", tInt(),
 		"IgnoredUnresponsiveNodes", "ignored", tInt(), "Conditions", "conds", tList(tStruct("Cond")))
-	defStruct("ERS", "Name", "name", tStr(), "CreationTimestamp", "creation", tTime(), "Status", "status", tStruct("ERSStatus"))
+	defStruct("ERS", "Name", "name", tStr(), "CreationTimestamp", "creation", tTime(), "Status", "status", tStruct("ERSStatus"),
+		// group CanaryStatus: the namespace, and `Spec.TemplateGeneration` (the model's record is flat: `Spec` is
+		// transparent, see sel)
+		"Namespace", "ns", tStr(), "TemplateGeneration", "templateGeneration", tStr())
 	// group Conds: the ExtendedDaemonSet status, the options of the condition update, and the pod as
 	// far as pkg/controller/utils/pod reads it (EdsModel/GoPrelude.lean)
 	defStruct("CanaryStatus", "ReplicaSet", "replicaSet", tStr(), "Nodes", "nodes", tList(tStr()))
@@ -193,10 +225,19 @@ func initTables() {
 		"Spec", "spec", tStruct("GPodSpec"), "Status", "status", tStruct("GPodStatus"), "Annotations", "annotations", smap)
 	// group Status: what strategy.Parameters / strategy.Result carry as far as manageCanaryPodFailures reads
 	// them, reconcile.Result, and the ExtendedDaemonsetSetting as far as its sort order reads it
-	defStruct("GParams", "Strategy", "strategy", tPtr(tStruct("Strategy")), "NewStatus", "newStatus", tPtr(tStruct("ERSStatus")))
+	// group CanaryStatus: the node item (the model's record; its `Node` is never nil and not a pointer there), the
+	// other fields of Parameters / Result that manageCanaryStatus reads and writes; the two Go maps of Parameters
+	defStruct("Node", "Name", "name", tStr(), "Labels", "labels", smap, "Annotations", "annotations", smap)
+	defStruct("NodeItem", "Node", "node", tStruct("Node"), "ExtendedDaemonsetSetting", "setting", tPtr(tStruct("Setting")))
+	defStruct("GParams", "Strategy", "strategy", tPtr(tStruct("Strategy")), "NewStatus", "newStatus", tPtr(tStruct("ERSStatus")),
+		"EDSName", "edsName", tStr(), "Replicaset", "replicaset", tPtr(tStruct("ERS")), "CanaryNodes", "canaryNodes", tList(tStr()),
+		"NodeByName", "nodeByName", tMap(tStr(), tPtr(tStruct("NodeItem"))),
+		"PodByNodeName", "podByNodeName", tMap(tPtr(tStruct("NodeItem")), tPtr(tStruct("GPod"))))
 	defStruct("GResult", "IsFrozen", "isFrozen", tBool(), "IsPaused", "isPaused", tBool(), "PausedReason", "pausedReason", tStr(),
 		"IsUnpaused", "isUnpaused", tBool(), "IsFailed", "isFailed", tBool(), "FailedReason", "failedReason", tStr(),
-		"NewStatus", "newStatus", tPtr(tStruct("ERSStatus")))
+		"NewStatus", "newStatus", tPtr(tStruct("ERSStatus")),
+		"PodsToCreate", "podsToCreate", tList(tPtr(tStruct("NodeItem"))), "PodsToDelete", "podsToDelete", tList(tPtr(tStruct("NodeItem"))),
+		"Result", "result", tStruct("GReconcileResult"))
 	defStruct("GReconcileResult", "Requeue", "requeue", tBool(), "RequeueAfter", "requeueAfter", tDur())
 	defStruct("Setting", "Name", "name", tStr(), "Namespace", "ns", tStr(), "CreationTimestamp", "creation", tTime())
 
@@ -237,6 +278,8 @@ func initTables() {
 		"Parameters":                                        tStruct("GParams"),
 		"Result":                                            tStruct("GResult"),
 		"ExtendedDaemonsetSetting":                          tStruct("Setting"),
+		"NodeItem":                                          tStruct("NodeItem"),
+		"Node":                                              tStruct("Node"),
 	}
 }
 
@@ -249,6 +292,10 @@ type fnSpec struct {
 	recv string
 	// name of a synthetic Bool parameter standing for pointer identity of two pointer arguments
 	ptrEq string
+	// a statement of the function instead of the function: "range <expr>" is its top-level `for … := range <expr>`.
+	// The statement is translated as a function of its own (fragmentDecl): its parameters are the parameters and
+	// locals of the enclosing function it mentions, its results the locals it assigns
+	fragment string
 }
 
 type fnInfo struct {
@@ -265,6 +312,9 @@ type fnInfo struct {
 	needsNil bool
 	// number of synthetic wall-clock parameters
 	nowN int
+	// per wall-clock parameter: it is read inside a loop, one instant per iteration (`wallNowK : Int → Int`, applied
+	// to the iteration index)
+	nowFn []bool
 	// number of results the Go function declares (results = these, then the types of retParams)
 	nGo int
 	// pointer parameters (Go names) whose value after the call is returned next to the Go results: the
@@ -274,6 +324,9 @@ type fnInfo struct {
 	imports map[string]string
 	// translated only for its signature (a function of a group this group depends on)
 	external bool
+	// a fragment (fnSpec.fragment): the line of the statement, the locals it returns
+	fragLine    int
+	fragResults []string
 }
 
 type bind struct{ v, m string }
@@ -309,6 +362,10 @@ type tr struct {
 	needsNil bool
 	// number of `time.Now()` calls met in the current function (synthetic parameters wallNow1 …)
 	nowN int
+	// per wall-clock parameter: read inside a loop (a function of the iteration index); the index variables of the
+	// enclosing loops
+	nowFn   []bool
+	loopIdx []string
 	// named types declared in the translated files (`type sortPodByNodeName []*corev1.Pod`)
 	localTypes map[string]ast.Expr
 }
@@ -442,6 +499,11 @@ func (t *tr) goType(e ast.Expr) Ty {
 			}
 		}
 	case *ast.MapType:
+		// map[string]string is the model's SMap; any other map whose key and value types are in the subset is an
+		// association list (everything else stays what it was: a string map the body cannot use)
+		if k, v, ok := t.tryMapTypes(x); ok && !(k.K == "str" && v.K == "str") && v.K != "unit" {
+			return tMap(k, v)
+		}
 		return Ty{K: "smap"}
 	case *ast.ArrayType:
 		if x.Len == nil {
@@ -450,6 +512,19 @@ func (t *tr) goType(e ast.Expr) Ty {
 	}
 	dieT("gotolean: unsupported type at %s", pos(e))
 	return Ty{}
+}
+
+// tryMapTypes: the key and value types of a map type, if both are in the subset
+func (t *tr) tryMapTypes(x *ast.MapType) (k, v Ty, ok bool) {
+	defer func() {
+		if r := recover(); r != nil {
+			if _, isT := r.(trErr); !isT {
+				panic(r)
+			}
+			ok = false
+		}
+	}()
+	return t.goType(x.Key), t.goType(x.Value), true
 }
 
 func zero(ty Ty) string {
@@ -462,7 +537,7 @@ func zero(ty Ty) string {
 		return "zeroTime"
 	case "str":
 		return "\"\""
-	case "smap", "list":
+	case "smap", "list", "map":
 		return "[]"
 	case "ptr":
 		return "none"
@@ -532,6 +607,9 @@ func (t *tr) sel(v val, name string, n ast.Node) val {
 		}
 		if name == "ObjectMeta" {
 			return v // the embedded metadata: its fields are the object's own
+		}
+		if name == "Spec" && v.ty.N == "ERS" {
+			return v // the model's replica set is flat: `rs.Spec.TemplateGeneration` is `rs.templateGeneration`
 		}
 	}
 	dieT("gotolean: unknown field %s of %+v at %s", name, v.ty, pos(n))
@@ -670,6 +748,13 @@ func (t *tr) ex(e ast.Expr) val {
 		switch m.ty.K {
 		case "smap":
 			return val{binds: bs, term: "(SMap.getD " + m.term + " " + k.term + ")", ty: tStr()}
+		case "map":
+			// m[k]: the zero value of the value type when the key is absent
+			kt := k.term
+			if k.ty.K == "nil" {
+				kt = "none"
+			}
+			return val{binds: bs, term: "(Go.mapGetD " + keyEq(*m.ty.Key, x) + " " + m.term + " " + kt + " " + zero(*m.ty.E) + ")", ty: *m.ty.E}
 		case "list":
 			r := t.tmp("e")
 			bs = append(bs, bind{r, "(Go.index " + m.term + " " + k.term + ")"})
@@ -861,6 +946,23 @@ func (t *tr) composite(x *ast.CompositeLit) val {
 	return val{}
 }
 
+// newWall: a read of the wall clock is a synthetic parameter of the translated function, in source order.  Inside a
+// loop every iteration reads its own instant: the parameter is a function of the iteration index.
+func (t *tr) newWall(n ast.Node) string {
+	t.nowN++
+	name := fmt.Sprintf("wallNow%d", t.nowN)
+	switch len(t.loopIdx) {
+	case 0:
+		t.nowFn = append(t.nowFn, false)
+		return name
+	case 1:
+		t.nowFn = append(t.nowFn, true)
+		return "(" + name + " " + t.loopIdx[0] + ")"
+	}
+	dieT("gotolean: the wall clock is read in a nested loop at %s", pos(n))
+	return ""
+}
+
 func (t *tr) call(x *ast.CallExpr) val {
 	args := func() ([]val, []bind) {
 		var vs []val
@@ -961,6 +1063,57 @@ func (t *tr) call(x *ast.CallExpr) val {
 	if name == "metav1.NewTime" {
 		return t.ex(x.Args[0])
 	}
+	// library code mapped to model functions (EdsModel/GoPrelude.lean); the arguments are still evaluated, in Go's
+	// order, for their dereferences
+	if name == "compareWithExtendedDaemonsetSettingOverwrite" && len(x.Args) == 2 {
+		// compareWithExtendedDaemonsetSettingOverwrite(pod, withoutContainersOverwrittenByNode(edsName, rs, node)):
+		// DeepCopy / json.Unmarshal / apiequality.Semantic.DeepEqual over resource lists
+		inner, ok := x.Args[1].(*ast.CallExpr)
+		if !ok || calleeName(inner) != "withoutContainersOverwrittenByNode" || len(inner.Args) != 3 {
+			dieT("gotolean: compareWithExtendedDaemonsetSettingOverwrite on something other than withoutContainersOverwrittenByNode(…) at %s", pos(x))
+		}
+		pod := t.ex(x.Args[0])
+		bs := append([]bind{}, pod.binds...)
+		var node val
+		for i, a := range inner.Args {
+			v := t.ex(a)
+			bs = append(bs, v.binds...)
+			if i == 2 {
+				node = v
+			}
+		}
+		if pod.ty.K != "ptr" || pod.ty.E.N != "GPod" || node.ty.K != "ptr" || node.ty.E.N != "NodeItem" {
+			dieT("gotolean: unexpected argument types of compareWithExtendedDaemonsetSettingOverwrite at %s", pos(x))
+		}
+		r := t.tmp("r")
+		bs = append(bs, bind{r, "(Go.compareWithSettingOverwrite " + pod.term + " " + node.term + ")"})
+		return val{binds: bs, term: r, ty: tBool()}
+	}
+	if name == "comparison.GenerateHashFromEDSResourceNodeAnnotation" && len(x.Args) == 3 {
+		// the hash of the node's resource-override annotations for (namespace, name): the model's `Node.resHash`, which
+		// the harness computes with this very function; the third argument must be `<node>.GetAnnotations()`
+		var bs []bind
+		for _, a := range x.Args[:2] {
+			bs = append(bs, t.ex(a).binds...)
+		}
+		ce, ok := x.Args[2].(*ast.CallExpr)
+		var se *ast.SelectorExpr
+		if ok {
+			se, ok = ce.Fun.(*ast.SelectorExpr)
+		}
+		if !ok || se.Sel.Name != "GetAnnotations" || len(ce.Args) != 0 {
+			dieT("gotolean: GenerateHashFromEDSResourceNodeAnnotation on something other than the annotations of a node at %s", pos(x))
+		}
+		recv := t.ex(se.X)
+		if recv.ty.K == "ptr" {
+			recv = t.deref(recv, x)
+		}
+		if recv.ty.K != "struct" || recv.ty.N != "Node" {
+			dieT("gotolean: GenerateHashFromEDSResourceNodeAnnotation on something other than the annotations of a node at %s", pos(x))
+		}
+		bs = append(bs, recv.binds...)
+		return val{binds: bs, term: recv.term + ".resHash", ty: tStr()}
+	}
 	// translated functions
 	if fi, ok := t.resolve(splitQual(name)); ok {
 		vs, bs := args()
@@ -979,13 +1132,17 @@ func (t *tr) call(x *ast.CallExpr) val {
 		if len(fi.retParams) > 0 && !fi.mutator {
 			dieT("gotolean: call of a function that assigns through several / later pointer arguments at %s", pos(x))
 		}
-		if fi.nowN > 0 {
-			dieT("gotolean: call of a function that reads the wall clock at %s", pos(x))
-		}
 		if fi.needsNil {
 			// the nil-ness of an empty slice is not represented: the caller's own parameter stands for it
 			t.needsNil = true
 			as = append(as, "nilSlice")
+		}
+		// every wall-clock read of the callee is a wall-clock read of the caller (at this call)
+		for i := 0; i < fi.nowN; i++ {
+			if i < len(fi.nowFn) && fi.nowFn[i] {
+				dieT("gotolean: call of a function that reads the wall clock in a loop at %s", pos(x))
+			}
+			as = append(as, t.newWall(x))
 		}
 		r := t.tmp("r")
 		bs = append(bs, bind{r, "(" + fi.spec.leanName + " " + strings.Join(as, " ") + ")"})
@@ -996,8 +1153,7 @@ func (t *tr) call(x *ast.CallExpr) val {
 	}
 	if name == "time.Now" {
 		// the wall clock: every call is a parameter of the translated function, in source order
-		t.nowN++
-		return val{term: fmt.Sprintf("wallNow%d", t.nowN), ty: tTime()}
+		return val{term: t.newWall(x), ty: tTime()}
 	}
 	vs, bs := args()
 	switch name {
@@ -1147,6 +1303,15 @@ func (t *tr) assigned(list []ast.Stmt) []string {
 						if r := root(a); r != "" {
 							if _, ok := t.lookup(r); ok {
 								set[r] = true
+							}
+						}
+					}
+					if _, idx, isVoid := t.voidCallee(c); isVoid {
+						for _, i := range idx {
+							if r := root(c.Args[i]); r != "" {
+								if _, ok := t.lookup(r); ok {
+									set[r] = true
+								}
 							}
 						}
 					}
@@ -1421,9 +1586,21 @@ func (t *tr) block(list []ast.Stmt, fall func() string) string {
 		return sb.String() + rest()
 	case *ast.AssignStmt:
 		return t.assign(s, rest)
+	case *ast.IncDecStmt:
+		// x++ is x = x + 1
+		op := token.ADD
+		if s.Tok == token.DEC {
+			op = token.SUB
+		}
+		one := &ast.BasicLit{ValuePos: s.TokPos, Kind: token.INT, Value: "1"}
+		return t.assign(&ast.AssignStmt{Lhs: []ast.Expr{s.X}, TokPos: s.TokPos, Tok: token.ASSIGN,
+			Rhs: []ast.Expr{&ast.BinaryExpr{X: s.X, OpPos: s.TokPos, Op: op, Y: one}}}, rest)
 	case *ast.ExprStmt:
 		c, ok := s.X.(*ast.CallExpr)
 		if ok {
+			if fi, idx, isVoid := t.voidCallee(c); isVoid {
+				return t.voidCall(c, fi, idx, rest)
+			}
 			if recv, isLog := isLoggerCall(c); isLog {
 				var bs []bind
 				if recv != nil {
@@ -1477,6 +1654,99 @@ func (t *tr) block(list []ast.Stmt, fall func() string) string {
 	}
 	dieT("gotolean: unsupported statement at %s", pos(list[0]))
 	return ""
+}
+
+// voidCallee: the statement `f(a1, …, an)` where f has no Go result and assigns through pointer parameters other than
+// (or beyond) its first one (fnInfo.retParams of a non-mutator): returns f and, per returned parameter, the index of
+// the corresponding argument.
+func (t *tr) voidCallee(c *ast.CallExpr) (*fnInfo, []int, bool) {
+	name := calleeName(c)
+	if name == "" {
+		return nil, nil, false
+	}
+	pkg, base := splitQual(name)
+	if pkg != "" {
+		if _, isLocal := t.lookup(pkg); isLocal {
+			return nil, nil, false
+		}
+	}
+	fi, ok := t.resolve(pkg, base)
+	if !ok || !fi.void || fi.mutator || len(fi.retParams) == 0 || fi.nGo != 0 {
+		return nil, nil, false
+	}
+	var names []string
+	for _, p := range paramFields(fi.decl) {
+		for _, n := range p.Names {
+			names = append(names, n.Name)
+		}
+	}
+	var idx []int
+	for _, rp := range fi.retParams {
+		found := -1
+		for i, n := range names {
+			if n == rp {
+				found = i
+			}
+		}
+		if found < 0 || found >= len(c.Args) {
+			return nil, nil, false
+		}
+		idx = append(idx, found)
+	}
+	return fi, idx, true
+}
+
+// voidCall: `f(a1, …, an)` of such a function is the assignment of what f returns (the pointers it assigned
+// through, as the caller sees them afterwards) to the corresponding arguments, which must be assignable paths.
+func (t *tr) voidCall(c *ast.CallExpr, fi *fnInfo, idx []int, rest func() string) string {
+	var bs []bind
+	var as []string
+	for _, a := range c.Args {
+		v := t.ex(a)
+		bs = append(bs, v.binds...)
+		if v.ty.K == "nil" {
+			as = append(as, "none")
+		} else {
+			as = append(as, v.term)
+		}
+	}
+	if fi.spec.ptrEq != "" {
+		dieT("gotolean: call of a function with a pointer-identity parameter at %s", pos(c))
+	}
+	if fi.needsNil {
+		t.needsNil = true
+		as = append(as, "nilSlice")
+	}
+	for i := 0; i < fi.nowN; i++ {
+		if i < len(fi.nowFn) && fi.nowFn[i] {
+			dieT("gotolean: call of a function that reads the wall clock in a loop at %s", pos(c))
+		}
+		as = append(as, t.newWall(c))
+	}
+	for _, i := range idx {
+		if u, ok := c.Args[i].(*ast.UnaryExpr); ok && u.Op == token.AND {
+			dieT("gotolean: &x passed to a function that assigns through a later pointer parameter at %s", pos(c))
+		}
+	}
+	r := t.tmp("r")
+	bs = append(bs, bind{r, "(" + fi.spec.leanName + " " + strings.Join(as, " ") + ")"})
+	names := []string{r}
+	pre := ""
+	if len(idx) > 1 {
+		names = nil
+		for range idx {
+			names = append(names, t.tmp("t"))
+		}
+		pre = "let (" + strings.Join(names, ", ") + ") := " + r + "\n"
+	}
+	var chain func(i int) string
+	chain = func(i int) string {
+		if i == len(idx) {
+			return rest()
+		}
+		return t.assignPath(c.Args[idx[i]], names[i], func() string { return chain(i + 1) })
+	}
+	return wrap(bs, pre+chain(0))
 }
 
 // retVoid: the end of a function without Go results — it yields its first parameter (see fnInfo.void).
@@ -1580,8 +1850,11 @@ func (t *tr) rangeStmt(s *ast.RangeStmt, rest func() string) string {
 		dieT("gotolean: range with assignment to existing variables at %s", pos(s))
 	}
 	xs := t.ex(s.X)
-	if xs.ty.K != "list" {
-		dieT("gotolean: range over a non-slice at %s", pos(s))
+	// a Go map is ranged over as its association list, in the order given (Go's order is unspecified: the bridges
+	// quantify over every list); `for k, v := range m` binds the key and the value of each entry
+	isMap := xs.ty.K == "map"
+	if xs.ty.K != "list" && !isMap {
+		dieT("gotolean: range over something other than a slice or a map at %s", pos(s))
 	}
 	t.loopN++
 	name := fmt.Sprintf("%s.loop%d", t.cur.spec.leanName, t.loopN)
@@ -1671,21 +1944,34 @@ func (t *tr) rangeStmt(s *ast.RangeStmt, rest func() string) string {
 	// the body, translated in its own scope
 	t.push()
 	idx := ""
-	if id, ok := s.Key.(*ast.Ident); ok && id.Name != "_" {
-		idx = t.declare(id.Name, tInt())
-	} else {
-		idx = t.tmp("i")
-	}
 	elem := "_"
-	if id, ok := s.Value.(*ast.Ident); ok && id.Name != "_" {
-		elem = t.declare(id.Name, *xs.ty.E)
+	if isMap {
+		idx = t.tmp("i")
+		kn, vn := "_", "_"
+		if id, ok := s.Key.(*ast.Ident); ok && id.Name != "_" {
+			kn = t.declare(id.Name, *xs.ty.Key)
+		}
+		if id, ok := s.Value.(*ast.Ident); ok && id.Name != "_" {
+			vn = t.declare(id.Name, *xs.ty.E)
+		}
+		elem = "(" + kn + ", " + vn + ")"
+	} else {
+		if id, ok := s.Key.(*ast.Ident); ok && id.Name != "_" {
+			idx = t.declare(id.Name, tInt())
+		} else {
+			idx = t.tmp("i")
+		}
+		if id, ok := s.Value.(*ast.Ident); ok && id.Name != "_" {
+			elem = t.declare(id.Name, *xs.ty.E)
+		}
 	}
 	tail := t.tmp("rest")
 	savedNil := t.needsNil
 	t.needsNil = false
 	const nilMark = "\x01nilSlice\x01" // resolved once the body is known to need the parameter or not
+	const wallMark = "\x01wall\x01"    // the wall-clock parameters the body reads, known once it is translated
 	callSelf := func(extra string) string {
-		return name + " " + strings.Join(append(append([]string{}, capArgs...), nilMark+"k_"), " ") + " " + extra
+		return name + " " + strings.Join(append(append([]string{}, capArgs...), nilMark+wallMark+"k_"), " ") + " " + extra
 	}
 	accVals := func() string {
 		if len(ss) == 0 {
@@ -1704,10 +1990,9 @@ func (t *tr) rangeStmt(s *ast.RangeStmt, rest func() string) string {
 	outer := t.aux
 	t.aux = nil
 	nowBefore := t.nowN
+	t.loopIdx = append(t.loopIdx, idx)
 	body := t.block(s.Body.List, next)
-	if t.nowN != nowBefore {
-		dieT("gotolean: the loop at %s reads the wall clock", pos(s))
-	}
+	t.loopIdx = t.loopIdx[:len(t.loopIdx)-1]
 	inner := t.aux
 	t.aux = outer
 	t.loops = t.loops[:len(t.loops)-1]
@@ -1721,6 +2006,17 @@ func (t *tr) rangeStmt(s *ast.RangeStmt, rest func() string) string {
 	} else {
 		body = strings.ReplaceAll(body, nilMark, "")
 	}
+	// the instants the body reads: one per iteration, functions of the iteration index
+	wallArgs := ""
+	for i := nowBefore + 1; i <= t.nowN; i++ {
+		if len(t.loopIdx) > 0 {
+			dieT("gotolean: the wall clock is read in a nested loop at %s", pos(s))
+		}
+		capParams = append(capParams, fmt.Sprintf("(wallNow%d : Int → Int)", i))
+		capArgs = append(capArgs, fmt.Sprintf("wallNow%d", i))
+		wallArgs += fmt.Sprintf("wallNow%d ", i)
+	}
+	body = strings.ReplaceAll(body, wallMark, wallArgs)
 	accPat := ""
 	for _, sl := range ss {
 		accPat += ", " + sl.lean
@@ -1817,6 +2113,25 @@ func (t *tr) assign(s *ast.AssignStmt, rest func() string) string {
 				}
 			}
 			m, k := t.ex(ix.X), t.ex(ix.Index)
+			if m.ty.K == "map" {
+				// v, ok := m[k] on an association list: the value (zero when absent) and whether the key is there
+				bs := append(append([]bind{}, m.binds...), k.binds...)
+				kt := k.term
+				if k.ty.K == "nil" {
+					kt = "none"
+				}
+				eq := keyEq(*m.ty.Key, s)
+				a := bindName(s.Lhs[0], *m.ty.E)
+				b := bindName(s.Lhs[1], tBool())
+				out := ""
+				if a != "_" {
+					out += "let " + a + " : " + m.ty.E.lean() + " := Go.mapGetD " + eq + " " + m.term + " " + kt + " " + zero(*m.ty.E) + "\n"
+				}
+				if b != "_" {
+					out += "let " + b + " : Bool := Go.mapHas " + eq + " " + m.term + " " + kt + "\n"
+				}
+				return wrap(bs, out+rest())
+			}
 			if m.ty.K != "smap" {
 				dieT("gotolean: comma-ok on a non-map at %s", pos(s))
 			}
@@ -1838,9 +2153,32 @@ func (t *tr) assign(s *ast.AssignStmt, rest func() string) string {
 		} else {
 			dieT("gotolean: unknown result types at %s", pos(s))
 		}
-		a := bindName(s.Lhs[0], tys[0])
-		b := bindName(s.Lhs[1], tys[1])
-		return wrap(v.binds, "let ("+a+", "+b+") := "+v.term+"\n"+rest())
+		_, id0 := s.Lhs[0].(*ast.Ident)
+		_, id1 := s.Lhs[1].(*ast.Ident)
+		if id0 && id1 {
+			a := bindName(s.Lhs[0], tys[0])
+			b := bindName(s.Lhs[1], tys[1])
+			return wrap(v.binds, "let ("+a+", "+b+") := "+v.term+"\n"+rest())
+		}
+		// `x.F, x.G = f(…)`: the results are named first, then assigned along their paths from left to right
+		if define {
+			dieT("gotolean: unsupported multi-assignment target at %s", pos(s))
+		}
+		var names []string
+		for range s.Lhs {
+			names = append(names, t.tmp("t"))
+		}
+		var chain func(i int) string
+		chain = func(i int) string {
+			if i == len(s.Lhs) {
+				return rest()
+			}
+			if id, ok := s.Lhs[i].(*ast.Ident); ok && id.Name == "_" {
+				return chain(i + 1)
+			}
+			return t.assignPath(s.Lhs[i], names[i], func() string { return chain(i + 1) })
+		}
+		return wrap(v.binds, "let ("+names[0]+", "+names[1]+") := "+v.term+"\n"+chain(0))
 	}
 	if len(s.Lhs) != 1 || len(s.Rhs) != 1 {
 		dieT("gotolean: unsupported assignment at %s", pos(s))
@@ -2155,6 +2493,8 @@ func (t *tr) translate(fi *fnInfo) string {
 	t.loops = nil
 	t.needsNil = false
 	t.nowN = 0
+	t.nowFn = nil
+	t.loopIdx = nil
 	body := t.block(fi.decl.Body.List, func() string {
 		if fi.void {
 			return t.retVoid(fi.decl)
@@ -2167,19 +2507,242 @@ func (t *tr) translate(fi *fnInfo) string {
 		ps = append(ps, "(nilSlice : Bool)")
 	}
 	fi.nowN = t.nowN
+	fi.nowFn = t.nowFn
 	for i := 1; i <= t.nowN; i++ {
-		ps = append(ps, fmt.Sprintf("(wallNow%d : Int)", i))
+		if t.nowFn[i-1] {
+			ps = append(ps, fmt.Sprintf("(wallNow%d : Int → Int)", i))
+		} else {
+			ps = append(ps, fmt.Sprintf("(wallNow%d : Int)", i))
+		}
 	}
 	var sb strings.Builder
 	for _, a := range t.aux {
 		sb.WriteString(a + "\n")
 	}
-	fmt.Fprintf(&sb, "/-- translated from `%s` (%s) -/\n", fi.spec.goName, fi.spec.file)
+	if fi.spec.fragment != "" {
+		fmt.Fprintf(&sb, "/-- translated from the statement `for … := %s` (line %d) of `%s` (%s): a function of the parameters and\nlocals of `%s` the statement mentions, returning the locals it assigns (%s) -/\n", fi.spec.fragment,
+			fi.fragLine, fi.spec.goName, fi.spec.file, fi.spec.goName, strings.Join(fi.fragResults, ", "))
+	} else {
+		fmt.Fprintf(&sb, "/-- translated from `%s` (%s) -/\n", fi.spec.goName, fi.spec.file)
+	}
 	fmt.Fprintf(&sb, "def %s %s : Option (%s) :=\n", fi.spec.leanName, strings.Join(ps, " "), rt)
 	for _, l := range strings.Split(body, "\n") {
 		sb.WriteString("  " + l + "\n")
 	}
 	return sb.String()
+}
+
+// selString: `a.b.c` of an identifier / selector chain ("" otherwise)
+func selString(e ast.Expr) string {
+	switch x := e.(type) {
+	case *ast.Ident:
+		return x.Name
+	case *ast.SelectorExpr:
+		if p := selString(x.X); p != "" {
+			return p + "." + x.Sel.Name
+		}
+	}
+	return ""
+}
+
+// fragmentDecl builds, from a function and the description of one of its top-level statements (fnSpec.fragment), the
+// declaration of a function that consists of that statement alone:
+//
+//	func f(<the parameters and earlier locals of the function the statement mentions>) (<types of the locals it assigns>) {
+//		<the statement, verbatim — the very AST node of the source>
+//		return <the locals it assigns, in alphabetical order>
+//	}
+//
+// The type of a local must be evident from its declaration (`var x T`, `x := T{…}`, `x := &T{…}`, `x := []T{…}`).
+func fragmentDecl(decl *ast.FuncDecl, sp fnSpec) (*ast.FuncDecl, int, []string) {
+	if !strings.HasPrefix(sp.fragment, "range ") {
+		dieT("gotolean: unsupported fragment description %q", sp.fragment)
+	}
+	want := strings.TrimPrefix(sp.fragment, "range ")
+	at := -1
+	for i, st := range decl.Body.List {
+		if rs, ok := st.(*ast.RangeStmt); ok && selString(rs.X) == want {
+			if at >= 0 {
+				dieT("gotolean: %s has several top-level loops over %s", sp.goName, want)
+			}
+			at = i
+		}
+	}
+	if at < 0 {
+		dieT("gotolean: %s has no top-level loop over %s", sp.goName, want)
+	}
+	frag := decl.Body.List[at]
+	// what is in scope in front of the statement, with its type where that is evident
+	type scoped struct {
+		name string
+		ty   ast.Expr // nil = not evident
+	}
+	var scope []scoped
+	index := map[string]int{}
+	add := func(n string, ty ast.Expr) {
+		if n == "_" {
+			return
+		}
+		if i, ok := index[n]; ok {
+			scope[i].ty = ty
+			return
+		}
+		index[n] = len(scope)
+		scope = append(scope, scoped{n, ty})
+	}
+	for _, p := range decl.Type.Params.List {
+		for _, n := range p.Names {
+			add(n.Name, p.Type)
+		}
+	}
+	for _, st := range decl.Body.List[:at] {
+		switch d := st.(type) {
+		case *ast.DeclStmt:
+			if gd, ok := d.Decl.(*ast.GenDecl); ok && gd.Tok == token.VAR {
+				for _, spc := range gd.Specs {
+					vs := spc.(*ast.ValueSpec)
+					for _, n := range vs.Names {
+						add(n.Name, vs.Type) // nil when the type is inferred from a value
+					}
+				}
+			}
+		case *ast.AssignStmt:
+			if d.Tok != token.DEFINE {
+				continue
+			}
+			for i, l := range d.Lhs {
+				id, ok := l.(*ast.Ident)
+				if !ok {
+					continue
+				}
+				var ty ast.Expr
+				if len(d.Rhs) == len(d.Lhs) {
+					switch r := d.Rhs[i].(type) {
+					case *ast.CompositeLit:
+						ty = r.Type
+					case *ast.UnaryExpr:
+						if cl, ok := r.X.(*ast.CompositeLit); ok && r.Op == token.AND {
+							ty = &ast.StarExpr{X: cl.Type}
+						}
+					}
+				}
+				if _, known := index[id.Name]; known && ty == nil {
+					continue // `x, err := …` re-using x
+				}
+				add(id.Name, ty)
+			}
+		}
+	}
+	// the names the statement declares itself must not hide one of these
+	ast.Inspect(frag, func(n ast.Node) bool {
+		switch y := n.(type) {
+		case *ast.AssignStmt:
+			if y.Tok == token.DEFINE {
+				for _, l := range y.Lhs {
+					if id, ok := l.(*ast.Ident); ok {
+						if _, hides := index[id.Name]; hides {
+							dieT("gotolean: the fragment of %s re-declares %s at %s", sp.goName, id.Name, pos(y))
+						}
+					}
+				}
+			}
+		case *ast.RangeStmt:
+			if y.Tok == token.DEFINE {
+				for _, e := range []ast.Expr{y.Key, y.Value} {
+					if id, ok := e.(*ast.Ident); ok {
+						if _, hides := index[id.Name]; hides {
+							dieT("gotolean: the fragment of %s re-declares %s at %s", sp.goName, id.Name, pos(y))
+						}
+					}
+				}
+			}
+		}
+		return true
+	})
+	// mentioned and assigned
+	used := map[string]bool{}
+	assigned := map[string]bool{}
+	var root func(e ast.Expr) string
+	root = func(e ast.Expr) string {
+		switch x := e.(type) {
+		case *ast.SelectorExpr:
+			return root(x.X)
+		case *ast.StarExpr:
+			return root(x.X)
+		case *ast.ParenExpr:
+			return root(x.X)
+		case *ast.IndexExpr:
+			return root(x.X)
+		case *ast.Ident:
+			return x.Name
+		}
+		return ""
+	}
+	var walk func(n ast.Node)
+	walk = func(n ast.Node) {
+		ast.Inspect(n, func(m ast.Node) bool {
+			switch y := m.(type) {
+			case *ast.SelectorExpr:
+				walk(y.X)
+				return false
+			case *ast.KeyValueExpr:
+				walk(y.Value)
+				return false
+			case *ast.Ident:
+				if _, ok := index[y.Name]; ok {
+					used[y.Name] = true
+				}
+			case *ast.AssignStmt:
+				if y.Tok != token.DEFINE {
+					for _, l := range y.Lhs {
+						if r := root(l); r != "" {
+							if _, ok := index[r]; ok {
+								assigned[r] = true
+							}
+						}
+					}
+				}
+			case *ast.IncDecStmt:
+				if r := root(y.X); r != "" {
+					if _, ok := index[r]; ok {
+						assigned[r] = true
+					}
+				}
+			}
+			return true
+		})
+	}
+	walk(frag)
+	params := &ast.FieldList{}
+	for _, sc := range scope {
+		if !used[sc.name] {
+			continue
+		}
+		if sc.ty == nil {
+			dieT("gotolean: the fragment of %s mentions %s, whose type is not evident from its declaration", sp.goName, sc.name)
+		}
+		params.List = append(params.List, &ast.Field{Names: []*ast.Ident{{Name: sc.name, NamePos: frag.Pos()}}, Type: sc.ty})
+	}
+	var outs []string
+	for n := range assigned {
+		outs = append(outs, n)
+	}
+	sort.Strings(outs)
+	if len(outs) == 0 {
+		dieT("gotolean: the fragment of %s assigns nothing", sp.goName)
+	}
+	results := &ast.FieldList{}
+	ret := &ast.ReturnStmt{Return: frag.End()}
+	for _, n := range outs {
+		results.List = append(results.List, &ast.Field{Type: scope[index[n]].ty})
+		ret.Results = append(ret.Results, &ast.Ident{Name: n, NamePos: frag.End()})
+	}
+	out := &ast.FuncDecl{
+		Name: decl.Name,
+		Type: &ast.FuncType{Func: decl.Type.Func, Params: params, Results: results},
+		Body: &ast.BlockStmt{Lbrace: frag.Pos(), List: []ast.Stmt{frag, ret}, Rbrace: frag.End()},
+	}
+	return out, fset.Position(frag.Pos()).Line, outs
 }
 
 // paramFields: the receiver (of a method) followed by the parameters
@@ -2250,6 +2813,11 @@ func (t *tr) mutatedParams(fi *fnInfo) []string {
 				} else if name := calleeName(c); name != "" {
 					if callee, ok := t.resolve(splitQual(name)); ok && callee.mutator {
 						hit[root(c.Args[0])] = true
+					}
+					if _, idx, isVoid := t.voidCallee(c); isVoid {
+						for _, i := range idx {
+							hit[root(c.Args[i])] = true
+						}
 					}
 				}
 			}
@@ -2333,6 +2901,19 @@ var decisionFns = []fnSpec{
 	{group: "Status", file: "pkg/controller/utils/list.go", goName: "ContainsString", leanName: "containsString"},
 	{group: "Status", file: "controllers/extendeddaemonsetreplicaset/strategy/utils.go", goName: "manageUnscheduledPodNodes", leanName: "manageUnscheduledPodNodes"},
 	{group: "Status", file: "controllers/extendeddaemonsetreplicaset/strategy/utils.go", goName: "compareSpecTemplateMD5Hash", leanName: "compareSpecTemplateMD5Hash"},
+	// group PodCompare: is the pod of a node the pod the replica set would create there (strategy/utils.go).  Calls
+	// compareSpecTemplateMD5Hash (group Status); its two library pieces are mapped to model functions (see call)
+	{group: "PodCompare", file: "controllers/extendeddaemonsetreplicaset/strategy/utils.go", goName: "compareNodeResourcesOverwriteMD5Hash", leanName: "compareNodeResourcesOverwriteMD5Hash"},
+	{group: "PodCompare", file: "controllers/extendeddaemonsetreplicaset/strategy/utils.go", goName: "compareCurrentPodWithNewPod", leanName: "compareCurrentPodWithNewPod"},
+	// group CanaryStatus: the status of a replica set in canary state (Go maps: NodeByName, PodByNodeName).  Calls into
+	// the groups Canary, Conds, Status and PodCompare.
+	{group: "CanaryStatus", file: "controllers/extendeddaemonsetreplicaset/strategy/canary.go", goName: "requeueIn", leanName: "requeueIn"},
+	{group: "CanaryStatus", file: "controllers/extendeddaemonsetreplicaset/strategy/canary.go", goName: "requeuePromptly", leanName: "requeuePromptly"},
+	{group: "CanaryStatus", file: "controllers/extendeddaemonsetreplicaset/strategy/canary.go", goName: "manageCanaryStatus", leanName: "manageCanaryStatus"},
+	// group Rolling: the classification loop of ManageDeployment (iteration over the Go map PodByNodeName); the rest of
+	// the function talks to the API server (cleanupPods, the canary-label clean-up) and is not translated
+	{group: "Rolling", file: "controllers/extendeddaemonsetreplicaset/strategy/rollingupdate.go", goName: "ManageDeployment", leanName: "manageDeploymentClassify",
+		fragment: "range params.PodByNodeName"},
 }
 
 const (
@@ -2341,11 +2922,12 @@ const (
 	podFile     = "pkg/controller/utils/pod/pod.go"
 )
 
-var decisionGroups = []string{"Canary", "Cleanup", "Defaults", "SlowStart", "Conds", "Status"}
+var decisionGroups = []string{"Canary", "Cleanup", "Defaults", "SlowStart", "Conds", "Status", "PodCompare", "CanaryStatus", "Rolling"}
 
 // groups whose functions a group calls: their generated files are imported, and their functions are
 // translated again here only for their signatures (a failure there fails this group too)
-var groupDeps = map[string][]string{"Status": {"Canary", "Conds"}}
+var groupDeps = map[string][]string{"Status": {"Canary", "Conds"}, "PodCompare": {"Canary", "Conds", "Status"},
+	"CanaryStatus": {"Canary", "Conds", "Status", "PodCompare"}, "Rolling": {"Canary", "Conds", "Status", "PodCompare"}}
 
 // genDecisions returns, per group, the content of EdsModel/Generated/Dec<group>.lean.  A group
 // the translator cannot express yields a file that does not compile (and says why), so that only
@@ -2449,7 +3031,12 @@ func genDecisionGroup(repo, group string) (content string) {
 			if decl == nil {
 				dieT("gotolean: function %s not found in %s", sp.goName, sp.file)
 			}
-			fi := &fnInfo{spec: sp, decl: decl, imports: fileImports(f), external: pass == 0}
+			fragLine := 0
+			var fragResults []string
+			if sp.fragment != "" {
+				decl, fragLine, fragResults = fragmentDecl(decl, sp)
+			}
+			fi := &fnInfo{spec: sp, decl: decl, imports: fileImports(f), external: pass == 0, fragLine: fragLine, fragResults: fragResults}
 			if decl.Type.Results != nil {
 				for _, r := range decl.Type.Results.List {
 					n := len(r.Names)
@@ -2482,6 +3069,9 @@ func genDecisionGroup(repo, group string) (content string) {
 				}
 			}
 			key := filepath.Dir(sp.file) + ":" + sp.goName
+			if sp.fragment != "" {
+				key += "#" + sp.fragment
+			}
 			if sp.recv != "" {
 				key = filepath.Dir(sp.file) + ":" + sp.recv + "." + sp.goName
 			}
